@@ -1,0 +1,189 @@
+//go:build verif
+
+package genetics
+
+import (
+	"context"
+
+	"github.com/yaricom/goNEAT/v4/neat"
+	"github.com/yaricom/goNEAT/v4/neat/network"
+)
+
+// This file exists only in builds with the `verif` tag. It gives the external verification harness access to the
+// unexported genetic operators and run-time state. Nothing here is referenced by the library itself apart from the
+// one-line hook sites guarded by verifOn.
+
+const verifOn = true
+
+// VerifTracer receives hook events when installed by the verification harness. With no tracer installed every hook
+// is a no-op, so a `verif` build behaves as the plain library.
+var VerifTracer func(ev string, args ...interface{})
+
+func verifEmit(ev string, args ...interface{}) {
+	if t := VerifTracer; t != nil {
+		t(ev, args...)
+	}
+}
+
+// verifOp emits "<ev>:enter" immediately and returns the function emitting "<ev>:exit" (to be deferred).
+func verifOp(ev string, args ...interface{}) func() {
+	t := VerifTracer
+	if t == nil {
+		return func() {}
+	}
+	t(ev+":enter", args...)
+	return func() { t(ev+":exit", args...) }
+}
+
+/* ---- genome operators ---- */
+
+func (g *Genome) VerifDuplicate(newId int) (*Genome, error) { return g.duplicate(newId) }
+
+func (g *Genome) VerifMutateConnectSensors(innovations InnovationsObserver, opts *neat.Options) (bool, error) {
+	return g.mutateConnectSensors(innovations, opts)
+}
+func (g *Genome) VerifMutateAddLink(innovations InnovationsObserver, generation int, opts *neat.Options) (bool, error) {
+	return g.mutateAddLink(innovations, generation, opts)
+}
+func (g *Genome) VerifMutateAddNode(innovations InnovationsObserver, ids network.NodeIdGenerator, opts *neat.Options) (bool, error) {
+	return g.mutateAddNode(innovations, ids, opts)
+}
+func (g *Genome) VerifMutateLinkWeights(power, rate float64, cold bool) (bool, error) {
+	mt := gaussianMutator
+	if cold {
+		mt = goldGaussianMutator
+	}
+	return g.mutateLinkWeights(power, rate, mt)
+}
+func (g *Genome) VerifMutateRandomTrait(opts *neat.Options) (bool, error) { return g.mutateRandomTrait(opts) }
+func (g *Genome) VerifMutateLinkTrait(times int) (bool, error)           { return g.mutateLinkTrait(times) }
+func (g *Genome) VerifMutateNodeTrait(times int) (bool, error)           { return g.mutateNodeTrait(times) }
+func (g *Genome) VerifMutateToggleEnable(times int) (bool, error)        { return g.mutateToggleEnable(times) }
+func (g *Genome) VerifMutateGeneReEnable() (bool, error)                 { return g.mutateGeneReEnable() }
+func (g *Genome) VerifMutateAllNonstructural(opts *neat.Options) (bool, error) {
+	return g.mutateAllNonstructural(opts)
+}
+
+func (g *Genome) VerifMateMultipoint(og *Genome, id int, f1, f2 float64) (*Genome, error) {
+	return g.mateMultipoint(og, id, f1, f2)
+}
+func (g *Genome) VerifMateMultipointAvg(og *Genome, id int, f1, f2 float64) (*Genome, error) {
+	return g.mateMultipointAvg(og, id, f1, f2)
+}
+func (g *Genome) VerifMateSinglePoint(og *Genome, id int) (*Genome, error) {
+	return g.mateSinglePoint(og, id)
+}
+
+func (g *Genome) VerifCompatibility(og *Genome, opts *neat.Options) float64 { return g.compatibility(og, opts) }
+func (g *Genome) VerifCompatLinear(og *Genome, opts *neat.Options) float64  { return g.compatLinear(og, opts) }
+func (g *Genome) VerifCompatFast(og *Genome, opts *neat.Options) float64    { return g.compatFast(og, opts) }
+func (g *Genome) VerifVerify() (bool, error)                               { return g.verify() }
+func (g *Genome) VerifHaveGene(gene *Gene) bool                            { return g.haveGene(gene) }
+func (g *Genome) VerifGeneInsert(gene *Gene)                               { g.geneInsert(gene) }
+func (g *Genome) VerifNodeInsert(node *network.NNode)                      { g.nodeInsert(node) }
+func (g *Genome) VerifNodeMapLen() int                                     { return len(g.nodeByIdMap) }
+
+func VerifNewGenomeRand(newId, in, out, n, maxHidden int, recurrent bool, linkProb float64, opts *neat.Options) (*Genome, error) {
+	return newGenomeRand(newId, in, out, n, maxHidden, recurrent, linkProb, opts)
+}
+
+/* ---- population / registry ---- */
+
+func VerifNewEmptyPopulation() *Population { return newPopulation() }
+
+func (p *Population) VerifInnovationsUnsafe() []Innovation { return p.innovations }
+func (p *Population) VerifCounters() (nextInnov int64, nextNode int32) {
+	return p.nextInnovNum, p.nextNodeId
+}
+func (p *Population) VerifSetCounters(nextInnov int64, nextNode int32) {
+	p.nextInnovNum, p.nextNodeId = nextInnov, nextNode
+}
+func (p *Population) VerifClearInnovations() { p.innovations = make([]Innovation, 0) }
+
+// VerifMutexFree reports whether the population mutex could be taken right now (and releases it at once).
+func (p *Population) VerifMutexFree() bool {
+	if p.mutex.TryLock() {
+		p.mutex.Unlock()
+		return true
+	}
+	return false
+}
+
+// VerifInnovationKind returns 1 for a new-node innovation and 2 for a new-link innovation.
+func VerifInnovationKind(i Innovation) int { return int(i.innovationType) }
+
+func (p *Population) VerifSpeciate(ctx context.Context, organisms []*Organism) error {
+	return p.speciate(ctx, organisms)
+}
+func (p *Population) VerifPurgeZeroOffspringSpecies(generation int) { p.purgeZeroOffspringSpecies(generation) }
+func (p *Population) VerifDeltaCoding(sorted []*Species, opts *neat.Options) {
+	p.deltaCoding(sorted, opts)
+}
+func (p *Population) VerifGiveBabiesToTheBest(sorted []*Species, opts *neat.Options) {
+	p.giveBabiesToTheBest(sorted, opts)
+}
+func (p *Population) VerifPurgeOrganisms() error { return p.purgeOrganisms() }
+
+/* ---- species / organisms ---- */
+
+func (s *Species) VerifAdjustFitness(opts *neat.Options) { s.adjustFitness(opts) }
+func (s *Species) VerifCountOffspring(skim float64) (int, float64) {
+	return s.countOffspring(skim)
+}
+func (s *Species) VerifAddOrganism(o *Organism) { s.addOrganism(o) }
+func (s *Species) VerifReproduce(ctx context.Context, generation int, pop *Population, sorted []*Species) ([]*Organism, error) {
+	return s.reproduce(ctx, generation, pop, sorted)
+}
+
+// VerifOrganismState exposes the unexported per-epoch marks of an organism.
+type VerifOrganismState struct {
+	OriginalFitness     float64
+	ToEliminate         bool
+	IsChampion          bool
+	SuperChampOffspring int
+	IsPopChampion       bool
+	IsPopChampionChild  bool
+	HighestFitness      float64
+	MutStructBaby       bool
+	MateBaby            bool
+	HasCachedPhenotype  bool
+}
+
+func (o *Organism) VerifState() VerifOrganismState {
+	return VerifOrganismState{
+		OriginalFitness:     o.originalFitness,
+		ToEliminate:         o.toEliminate,
+		IsChampion:          o.isChampion,
+		SuperChampOffspring: o.superChampOffspring,
+		IsPopChampion:       o.isPopulationChampion,
+		IsPopChampionChild:  o.isPopulationChampionChild,
+		HighestFitness:      o.highestFitness,
+		MutStructBaby:       o.mutationStructBaby,
+		MateBaby:            o.mateBaby,
+		HasCachedPhenotype:  o.orgPhenotype != nil,
+	}
+}
+
+/* ---- epoch executors: the three phases ---- */
+
+func (s *SequentialPopulationEpochExecutor) VerifPrepare(ctx context.Context, generation int, p *Population) error {
+	return s.prepareForReproduction(ctx, generation, p)
+}
+func (s *SequentialPopulationEpochExecutor) VerifReproduce(ctx context.Context, generation int, p *Population) error {
+	return s.reproduce(ctx, generation, p)
+}
+func (s *SequentialPopulationEpochExecutor) VerifFinalize(ctx context.Context, p *Population) error {
+	return s.finalizeReproduction(ctx, p)
+}
+func (s *SequentialPopulationEpochExecutor) VerifSortedSpecies() []*Species { return s.sortedSpecies }
+func (s *SequentialPopulationEpochExecutor) VerifBestSpeciesId() int        { return s.bestSpeciesId }
+
+func (p *ParallelPopulationEpochExecutor) VerifInit() {
+	p.sequential = &SequentialPopulationEpochExecutor{}
+}
+func (p *ParallelPopulationEpochExecutor) VerifSequential() *SequentialPopulationEpochExecutor {
+	return p.sequential
+}
+func (p *ParallelPopulationEpochExecutor) VerifReproduce(ctx context.Context, generation int, pop *Population) error {
+	return p.reproduce(ctx, generation, pop)
+}
